@@ -34,6 +34,14 @@ CLAIMED = {
          "End cause x buffer condition (idle, outgoing ring full, incoming ring full behind a third party, cross-blocked pair) x order of ends; at every quiescence point without stalled open connection exactly one processor/receiver/sender per open connection exists; after all ended no library goroutine; Server.Close and ListenAndServe return.", "§6 C16"),
  "C17": ("exploration", B + "strict reference parse of every emitted byte, per-publisher sequence order",
          "Concurrent publishers to shared slow subscribers with packets straddling the ring end; every byte the broker writes on every link must parse strictly; sequence numbers per publisher connection, topic and QoS arrive in order.", "§6 C17"),
+ "C06": ("exploration", "deterministic simulation: topic store as a concurrent object, specification matcher + porcupine linearizability check, exhaustive alphabet sweep",
+         "1-3 simulated callers on one MemTopics; sequential histories (up to 1000 calls) compared call by call with an MQTT 4.7 matcher + maps, concurrent ones (up to 35 calls, stamped with the simulator's event sequence) checked with porcupine; one enumerated script sweeps all filters x topics of up to four levels over {a,b,empty,+,#}.", "§6 C06"),
+ "C13": ("exploration", "deterministic simulation: ack queue as a concurrent object, list model + porcupine",
+         "The six queues of a Session driven by one caller (up to 5000 operations, up to 600 in flight: growth while wrapped, identifier reuse, two-step QoS 2 states) or by registering tasks plus a processor task (porcupine); byte-identical request/ack copies although the harness overwrites its buffers.", "§6 C13"),
+ "C18": ("exploration", "deterministic simulation under the race detector: only the library is instrumented, simulator hand-offs are invisible to ThreadSanitizer",
+         "The workloads of the other worlds (routing with in-process calls, retained updates racing with subscriptions, teardown under delivery and Server.Close, fan-in, wills, session churn, attackers, ring, ack queue, topic store) run in a -race worker whose scheduler is seeded and serialised; a violation is a race report with both accesses in library code.", "§6 C18"),
+ "C20": ("exploration", "deterministic simulation: real Client against a scripted server on the simulated transport, result table and dispatch windows",
+         "CONNACK variants (codes, malformed, silence with virtual connect timeout, close before/inside) decide Connect's result, leftover goroutines and the connection; Subscribe/Unsubscribe requests with distinct callbacks against inbound PUBLISH traffic (QoS 0-2, DUP repeats, explicit PUBREL) decide callback counts between certain and possible hand-overs.", "§6 C20"),
  "C19": ("exploration", B + "virtual-time activity patterns against close deadlines",
          "Keep-alive values 1-10 s and activity patterns (silent, traffic then silent, pinging/publishing at 0.2-0.95 K, dribbled bytes, reconnect) in virtual time; silent clients are closed by 2K+1 s and their will published; clients whose gaps stay below K are never closed; each PINGREQ gets one PINGRESP.", "§6 C19"),
  "C14": ("exploration", "deterministic simulation: seeded schedules over the real ring buffer, position-dependent stream oracle",
@@ -43,6 +51,8 @@ CLAIMED = {
 }
 
 NOT_YET = {}
+for _k in ("C02", "C12"):
+    pass
 NA = {
  "C03": "pure function of its input (Encode/Decode/Len): no schedule, clock, fault or interleaving to simulate; deciding it is input generation against a reference codec, not simulation (DESIGN.md §7). The packet-id counter clause is exercised under C12/C17.",
  "C04": "pure function of a byte slice (Decode totality): nothing for a simulator to schedule or fault; its system-level consequence (malformed input must not hurt the broker) is C05 (DESIGN.md §7).",
